@@ -353,10 +353,16 @@ class SpaceWorld(Environment):
         ymin, ymax = min(y_pos - y_leeway, y_pos - leeway), max(y_pos + y_leeway, y_pos + leeway)
         zmin, zmax = min(z_pos - z_leeway, z_pos - leeway), max(z_pos + z_leeway, z_pos + leeway)
 
+        def within(value, origin, vmin, vmax, axis_leeway, extent):
+            if self.wrap_env and extent > 0:  # Toroidal axis: measure the distance around the seam
+                dist = abs(value - origin) % extent
+                return min(dist, extent - dist) <= max(axis_leeway, leeway)
+            return vmin <= value <= vmax
+
         return [self.agents[agentKey] for agentKey in self.agents
-                if xmin <= self.agents[agentKey][PositionComponent].x <= xmax
-                and ymin <= self.agents[agentKey][PositionComponent].y <= ymax
-                and zmin <= self.agents[agentKey][PositionComponent].z <= zmax]
+                if within(self.agents[agentKey][PositionComponent].x, x_pos, xmin, xmax, x_leeway, self.width)
+                and within(self.agents[agentKey][PositionComponent].y, y_pos, ymin, ymax, y_leeway, self.height)
+                and within(self.agents[agentKey][PositionComponent].z, z_pos, zmin, zmax, z_leeway, self.depth)]
 
     def get_dimensions(self) -> (int, int, int):
         """Returns a 3-tuple containing the extents of the environment:
